@@ -150,5 +150,12 @@ def run(chk: Check):
     rule_z1(chk, ix)
     rule_z2_z3(chk, ix)
     rule_z4(chk, ix)
+    # string mode serves error text from token `line`s: string tokens must carry their lines (C08 L2); the cache must be
+    # per parser (C13 U2/U3)
+    from .c08 import rule_l2
+    from .c13 import rule_u2, rule_u3
+    rule_l2(chk, ix)
+    rule_u2(chk)
+    rule_u3(chk, ix)
     chk.floor("Z1-pipeline-agreement", 6)
     chk.floor("Z2-explicit-encoding", 2)
